@@ -130,12 +130,16 @@ pub fn parallel_parse(
             });
             match result {
                 Ok(Some(parsed_data)) => {
-                    tx.send(Ok(parsed_data)).unwrap();
-                    WalkState::Continue
+                    // The collector hangs up after the first error; stop walking then.
+                    match tx.send(Ok(parsed_data)) {
+                        Ok(()) => WalkState::Continue,
+                        Err(_) => WalkState::Quit,
+                    }
                 }
                 Ok(None) => WalkState::Continue,
                 Err(err) => {
-                    tx.send(Err(err)).unwrap();
+                    // A failed send means another error is already being reported.
+                    let _ = tx.send(Err(err));
                     WalkState::Quit
                 }
             }
